@@ -1,7 +1,7 @@
 SPECIFICATION Spec
 CONSTANTS
   K = 1
-  Variant = "code"
+  Variant = {"export_path", "real_repr", "scope_any"}
   Emit = FALSE
 INVARIANTS ImplValid ImplHeaders ImplReqOk
 CHECK_DEADLOCK FALSE
